@@ -3427,3 +3427,61 @@ func scenLifecycle(e *engineA) error {
 	e.sleepHB(3, 6)
 	return e.finish()
 }
+
+func init() { scenarios["uncommitted-demotion-timeout-now"] = scenUncommittedDemotionTimeoutNow }
+
+// scenUncommittedDemotionTimeoutNow (C11): a follower stores the
+// configuration that demotes it while that configuration cannot commit (the
+// third voter is cut off), so it is a non-voter in its own latest
+// configuration and still a voter in the committed one. In that window it is
+// told to time out now - a request that was on its way since before the
+// demotion, or one from a node that wrongly believes it leads. It must answer
+// nonVoter and stay a follower.
+func scenUncommittedDemotionTimeoutNow(e *engineA) error {
+	e.prof = profiles["member"]
+	if err := e.boot(3); err != nil {
+		return err
+	}
+	e.cl.startInfoSampler(e.hb() / 2)
+	l := e.cl.leader()
+	if l == nil {
+		return fmt.Errorf("no leader")
+	}
+	for i := 0; i < 3; i++ {
+		e.cl.fsmOp(1, l, "update")
+	}
+	fs := e.others(l)
+	if len(fs) != 2 {
+		return fmt.Errorf("no two followers")
+	}
+	k := e.rng.Intn(2)
+	a, b := fs[k], fs[1-k]
+	e.rc.emit(&ev.Rec{K: "fault", Op: "third-voter-cut-off-then-demotion-of-follower-stored", Nid: a.nid, ID: b.nid})
+	e.cutBoth(l, b, true)
+	e.cutBoth(a, b, true)
+	act := []raft.Action{raft.Demote, raft.Remove}[e.rng.Intn(2)]
+	go e.cl.changeConfig(l, fmt.Sprintf("%v(%d) while %d is cut off", act, a.nid, b.nid), func(c *raft.Config) error { return c.SetAction(a.nid, act) })
+	if !e.waitFor(60, func() bool {
+		ai, ok := a.info(false)
+		if !ok || ai.Configs.Latest.Index <= ai.Configs.Committed.Index {
+			return false
+		}
+		n, in := ai.Configs.Latest.Nodes[a.nid]
+		return !in || !n.Voter
+	}) {
+		// (with Remove the leader first demotes: either way a is no voter)
+		e.cutBoth(l, b, false)
+		e.cutBoth(a, b, false)
+		return fmt.Errorf("the demotion did not reach the follower uncommitted")
+	}
+	e.rc.emit(&ev.Rec{K: "fault", Op: "timeout-now-to-follower-demoted-uncommitted", Nid: a.nid})
+	for i := 0; i < 3; i++ {
+		e.wireTimeoutNow(a)
+		e.sleepHB(0.2, 0.5)
+	}
+	e.sleepHB(1, 2)
+	e.cutBoth(l, b, false)
+	e.cutBoth(a, b, false)
+	e.sleepHB(3, 6)
+	return e.finish()
+}
